@@ -215,4 +215,132 @@ theorem C01_session_cipher (c : SessIn.Cipher) (enc : Bytes → Bytes) (hc : C01
   rw [h] at hL ⊢
   exact C01_session_plain sA sB hA hB hbB hsn hm plain hL
 
+/-! ## (b) FEC -/
+
+section fec
+open KcpVerif.Fec KcpVerif.Lemmas.FecSpec KcpVerif.Lemmas
+
+/-- the calls the FEC branch of `UDPSession.kcpInput` makes to the core's `Input` for one FEC packet
+`pkt` (from the FEC header on), as pairs (payload, `regular`): `decode` first; a data packet's own
+payload `data[fecHeaderSizePlus2:]` with `IKCP_PACKET_REGULAR`; then every recovered shard `r` that
+passes the size check, `r[2:sz]`, with `IKCP_PACKET_FEC` -/
+def C01_fecInputCalls (C : CodecNew) (dec : Decoder) (pkt : Bytes) : List (Bytes × Bool) :=
+  (if flag pkt = typeData then [(pkt.drop fecHeaderSizePlus2, true)] else []) ++
+    ((dec.decode C pkt).recovered.filterMap trim).map (fun pl => (pl, false))
+
+/-- one received FEC packet: new decoder state, all `Input` calls so far -/
+def C01_fecStep (C : CodecNew) (acc : Decoder × List (Bytes × Bool)) (q : Bytes) : Decoder × List (Bytes × Bool) :=
+  ((acc.1.decode C q).st, acc.2 ++ C01_fecInputCalls C acc.1 q)
+
+def C01_fecRun (C : CodecNew) (dec : Decoder) (pkts : List Bytes) : Decoder × List (Bytes × Bool) :=
+  pkts.foldl (C01_fecStep C) (dec, [])
+
+/-- where an `Input` call comes from: a data packet that arrived, or a shard `decode` returned -/
+def C01_CallOk (seen recd : List Bytes) (c : Bytes × Bool) : Prop :=
+  (c.2 = true ∧ ∃ q ∈ seen, flag q = typeData ∧ c.1 = q.drop fecHeaderSizePlus2) ∨
+  (c.2 = false ∧ ∃ r ∈ recd, trim r = some c.1)
+
+theorem C01_CallOk.mono {seen recd : List Bytes} {c : Bytes × Bool} (h : C01_CallOk seen recd c)
+    (s2 r2 : List Bytes) : C01_CallOk (seen ++ s2) (recd ++ r2) c := by
+  rcases h with ⟨h1, q, hq, h2⟩ | ⟨h1, r, hr, h2⟩
+  · exact Or.inl ⟨h1, q, List.mem_append_left _ hq, h2⟩
+  · exact Or.inr ⟨h1, r, List.mem_append_left _ hr, h2⟩
+
+/-- the `Input` calls of the FEC receive path run in lock step with `FecDec.feed` (the run
+`C07_dec_sound` is about): same decoder states, and every call is a data packet's payload or the
+trimmed form of a shard `decode` returned -/
+theorem C01_fecRun_calls (C : CodecNew) :
+    ∀ (pkts : List Bytes) (a : Decoder × List (Bytes × Bool)) (b : Decoder × List Bytes) (seen : List Bytes),
+      a.1 = b.1 → (∀ c ∈ a.2, C01_CallOk seen b.2 c) →
+      (pkts.foldl (C01_fecStep C) a).1 = (pkts.foldl (FecDec.feedStep C) b).1 ∧
+      ∀ c ∈ (pkts.foldl (C01_fecStep C) a).2, C01_CallOk (seen ++ pkts) (pkts.foldl (FecDec.feedStep C) b).2 c := by
+  intro pkts
+  induction pkts with
+  | nil => intro a b seen h1 h2; exact ⟨h1, by simpa using h2⟩
+  | cons q rest ih =>
+    intro a b seen h1 h2
+    rw [List.foldl_cons, List.foldl_cons]
+    have e : seen ++ q :: rest = (seen ++ [q]) ++ rest := by simp
+    rw [e]
+    apply ih
+    · show (a.1.decode C q).st = (b.1.decode C q).st
+      rw [h1]
+    · intro c hc
+      show C01_CallOk (seen ++ [q]) (b.2 ++ (b.1.decode C q).recovered) c
+      have hc' : c ∈ a.2 ++ C01_fecInputCalls C a.1 q := hc
+      rcases List.mem_append.mp hc' with h | h
+      · exact (h2 c h).mono _ _
+      · unfold C01_fecInputCalls at h
+        rcases List.mem_append.mp h with h | h
+        · by_cases hf : flag q = typeData
+          · rw [if_pos hf] at h
+            have : c = (q.drop fecHeaderSizePlus2, true) := by simpa using h
+            rw [this]
+            exact Or.inl ⟨rfl, q, by simp, hf, rfl⟩
+          · rw [if_neg hf] at h; cases h
+        · obtain ⟨pl, hpl, rfl⟩ := List.mem_map.mp h
+          obtain ⟨r, hr, htr⟩ := List.mem_filterMap.mp hpl
+          rw [h1] at hr
+          exact Or.inr ⟨rfl, r, List.mem_append_right _ hr, htr⟩
+
+/-- the payload of a genuine data packet, as `kcpInput` slices it -/
+theorem C01_packet_payload (C : CodecNew) (G : Group) (hG : G.WF) (j : Nat) (hj : j < G.d) :
+    (G.packet C j).drop fecHeaderSizePlus2 = G.payloads.getD j [] := by
+  have hjl : j < G.payloads.length := by rw [hG.count]; exact hj
+  rw [FecEnc.packet_data C G hj]
+  have hb : G.bodies.getD j [] = bodyOf (G.payloads.getD j []) := by
+    unfold Group.bodies
+    rw [List.getD_eq_getElem?_getD, List.getD_eq_getElem?_getD, List.getElem?_map,
+      List.getElem?_eq_getElem hjl]
+    rfl
+  rw [hb]
+  unfold bodyOf
+  rw [← List.append_assoc]
+  exact List.drop_left' (by simp [Fec.le32, Fec.le16, fecHeaderSizePlus2])
+
+/-- **FEC reduction.**  A decoder is fed ANY list of genuine packets of the sender's ratio (any
+order, duplicates, losses, late arrivals…: the premise of `C07_dec_sound`).  Given the conclusion of
+`C07_dec_sound` for that run, EVERY payload the FEC branch of `kcpInput` hands to the core's `Input`
+— with `regular = true` (a data packet that arrived) or `regular = false` (recovered) — is byte-equal
+to a payload the peer's FEC encoder was handed, i.e. to a KCP datagram the peer's core emitted.
+FEC-recovered input is a replay of genuine datagrams; nothing else ever reaches the core. -/
+theorem C01_fec_reduction {C : CodecNew} (grp : FecDec.Family) (d p : Nat) (dec : Decoder) (pkts : List Bytes)
+    (hgen : ∀ q ∈ pkts, FecDec.GenuinePkt C grp d p q)
+    (C07_dec_sound : ∀ r ∈ (FecDec.feed C dec pkts).2,
+      ∃ G : Group, grp (G.base / u32 G.n) = some G ∧ G.WF ∧ G.d = d ∧ G.p = p ∧
+        (∃ j, j < G.n ∧ G.packet C j ∈ pkts) ∧
+        ∃ k, k < G.d ∧ r = pad G.maxLen (G.bodies.getD k []) ∧ trim r = some (G.payloads.getD k [])) :
+    ∀ c ∈ (C01_fecRun C dec pkts).2,
+      ∃ (G : Group) (k : Nat), grp (G.base / u32 G.n) = some G ∧ G.WF ∧ k < G.d ∧
+        c.1 = G.payloads.getD k [] ∧ (c.2 = true → G.packet C k ∈ pkts) := by
+  intro c hc
+  have h := (C01_fecRun_calls C pkts (dec, []) (dec, []) [] rfl (fun c hc => by cases hc)).2 c hc
+  rcases h with ⟨h1, q, hq, hf, hpl⟩ | ⟨h1, r, hr, htr⟩
+  · have hq' : q ∈ pkts := by simpa using hq
+    obtain ⟨G, j, hgrp, hG, _, _, hj, rfl⟩ := hgen q hq'
+    have hjd : j < G.d := by
+      rw [FecDec.flag_packet] at hf
+      by_cases hlt : j < G.d
+      · exact hlt
+      · rw [if_neg hlt] at hf
+        exact absurd hf (by decide)
+    exact ⟨G, j, hgrp, hG, hjd, by rw [hpl, C01_packet_payload C G hG j hjd], fun _ => hq'⟩
+  · obtain ⟨G, hgrp, hG, _, _, _, k, hk, _, hk2⟩ := C07_dec_sound r hr
+    refine ⟨G, k, hgrp, hG, hk, ?_, fun ht => ?_⟩
+    · rw [hk2] at htr
+      exact (Option.some.inj htr).symm
+    · rw [h1] at ht; cases ht
+
+end fec
+
+/-- **Replays with either flag are already in the network of `C01_core`.**  Handing `B`'s `Input` a
+datagram `A` has emitted, with ANY `regular` flag (`false` for FEC-recovered input: `Input` then only
+skips the `rmt_wnd` / RTT updates), any `ackNoDelay`, any clock, IS the delivery step `dlv` of the
+two-core system — so `C01_core`, `C01_core_msg` and the invariants `InvR`/`InvS` (proved for all flags)
+cover FEC-recovered input without change. -/
+theorem C01_fec_calls_are_replays (S : Sys) (pl : Bytes) (reg a : Bool) (now : U32) (h : pl ∈ S.A.wire) :
+    ∃ i, sstep S (.dlv i reg a now) = { S with B := step S.B (.input pl reg a now) } := by
+  obtain ⟨i, hi⟩ := List.getElem?_of_mem h
+  exact ⟨i, by simp [sstep, hi]⟩
+
 end KcpVerif.Props
